@@ -101,3 +101,88 @@ pub fn ghost_next(from: (i64, i64, i64), _to: (i64, i64, i64), zero_step: bool) 
 pub fn ghost_next(from: (i64, i64, i64), to: (i64, i64, i64), _zero_step: bool) -> (i64, (i64, i64, i64)) {
   (crate::refcal::ordinal(to.0, to.1, to.2) - crate::refcal::ordinal(from.0, from.1, from.2), to)
 }
+
+// ---- relational spec of AbstractCulture::index_of (discharged by engine B for every size in the source) ------
+#[cfg(kani)]
+pub static mut IX_N: usize = 0;
+#[cfg(kani)]
+pub static mut IX_LOG: [(i64, i64, i64); 8] = [(0, 0, 0); 8];
+
+#[cfg(kani)]
+pub fn index_of_spec(_s: &tyme4rs::tyme::AbstractCulture, index: isize, size: usize) -> usize {
+  let r: usize = kani::any();
+  let k: isize = kani::any();
+  kani::assume(size > 0 && r < size);
+  kani::assume(-(1isize << 40) < k && k < (1isize << 40));
+  kani::assume(-(1isize << 45) < index && index < (1isize << 45));
+  kani::assume(k * (size as isize) + (r as isize) == index);
+  unsafe {
+    if IX_N < 8 { IX_LOG[IX_N] = (index as i64, size as i64, r as i64); }
+    IX_N += 1;
+  }
+  r
+}
+#[cfg(kani)]
+pub fn ix_calls() -> usize { unsafe { IX_N } }
+#[cfg(kani)]
+pub fn ix_log(k: usize) -> (i64, i64, i64) { unsafe { IX_LOG[k] } }
+
+// ---- ENV-A: the astronomical kernel as an arbitrary environment -------------------------------------------------
+/// `ShouXingUtil::calc_shuo` / `calc_qi`: any integral day offset from J2000 whose Julian day lies in the supported
+/// range.  Not even functional: used where only (year, month, leap, index) matter.
+#[cfg(kani)]
+pub fn astro_any(_pjd: f64) -> f64 {
+  let k: i32 = kani::any();
+  kani::assume(k >= -730000 && k <= 2921000);
+  k as f64
+}
+
+// ---- ENV-L: leap-month table as a symbolic window ---------------------------------------------------------------
+pub const LEAP_CAP: usize = 8;
+#[cfg(kani)]
+pub static mut LEAP_Y0: i64 = 0;
+#[cfg(kani)]
+pub static mut LEAP_W: usize = 0;
+#[cfg(kani)]
+pub static mut LEAP: [usize; LEAP_CAP] = [0; LEAP_CAP];
+
+/// draws the leap months of years y0 .. y0+w-1 (each 0..12) and installs them; returns (shift, table).  Natively the
+/// real table is in force: the window is moved to a place where the real years have exactly this pattern
+/// (shift = distance), or the replay is reported as unrealised.
+pub fn leap_window(i: &mut crate::nd::In, y0: i64, w: usize) -> (i64, [usize; LEAP_CAP]) {
+  let mut t = [0usize; LEAP_CAP];
+  let mut k = 0;
+  while k < w { t[k] = i.int(0, 12) as usize; k += 1; }
+  #[cfg(kani)]
+  unsafe { LEAP_Y0 = y0; LEAP_W = w; LEAP = t; }
+  #[cfg(kani)]
+  return (0, t);
+  #[cfg(not(kani))]
+  {
+    use tyme4rs::tyme::lunar::LunarYear;
+    let real = |y: i64| LunarYear::from_year(y as isize).get_leap_month();
+    let fits = |b: i64| (0..w).all(|k| real(b + k as i64) == t[k]);
+    if fits(y0) { return (0, t); }
+    let mut b = 1;
+    while b + (w as i64) < 9990 {
+      if fits(b) { return (b - y0, t); }
+      b += 1;
+    }
+    std::panic::panic_any(crate::nd::Unrealised);
+  }
+}
+
+#[cfg(kani)]
+pub fn leap_model(y: &tyme4rs::tyme::lunar::LunarYear) -> usize {
+  unsafe {
+    let k = y.get_year() as i64 - LEAP_Y0;
+    kani::assume(k >= 0 && (k as usize) < LEAP_W);   // stated bound: steps that leave the window are outside the claim
+    LEAP[k as usize]
+  }
+}
+
+/// `LunarMonth::from_ym` without the process-wide memo (C10's subject): the real constructor still runs.
+#[cfg(kani)]
+pub fn from_ym_new(year: isize, month: isize) -> tyme4rs::tyme::lunar::LunarMonth {
+  tyme4rs::tyme::lunar::LunarMonth::new(year, month).unwrap()
+}
